@@ -225,6 +225,17 @@ and observe_ (m : model) (x : sexp) : string =
        | Err w -> "{\"error\":" ^ jstr (implode w) ^ "}"
        | Ok r -> "{\"outputs\":" ^ jlist jvec r.rr_outputs ^ ",\"derived\":{"
                  ^ String.concat "," (List.map (fun (k, v) -> jstr (implode k) ^ ":" ^ jvec v) r.rr_derived) ^ "}}")
+  | L [A "rkstep"; L (A "params" :: ps); A t; A dt; xv] ->
+      (* one Dormand-Prince step of the adaptive solver on this model's right-hand side *)
+      let env = q_env_of (params_of (L ps)) in
+      (match prepare_structural m with
+       | Err w -> "{\"error\":" ^ jstr (implode w) ^ "}"
+       | Ok b ->
+           let f = (fun t y -> get_comp_rates ops m b env t y) in
+           let y0 = (match xv with A "none" -> q_initial_population m env | l -> fvec l) in
+           let t0 = Obj.magic (q2Qc (q_of_string t)) in
+           let r = rk_step ops (nat_of_int (List.length y0)) f y0 (f t0 y0) t0 (Obj.magic (q2Qc (q_of_string dt))) in
+           "{\"y1\":" ^ jvec r.rk_y1 ^ ",\"f1\":" ^ jvec r.rk_f1 ^ ",\"err\":" ^ jvec r.rk_err ^ "}")
   | L [A "initpop"; L (A "params" :: ps)] ->
       let env = q_env_of (params_of (L ps)) in
       "{\"initial_population\":" ^ jvec (q_initial_population m env) ^ "}"
